@@ -266,7 +266,8 @@ def gen_type_lemmas(meta):
         hyp = list(NESTED_HYPS.get(g, [])) if nested else []
         lets = "let x = x_re; " + "".join(f"let {n} = {e}; " for n, e in tab["atoms"])
         ens = ["({ " + lets + f"{m(g, p, [X], extra)} == {G.slift(p, X, ['(' + t + ')' for t in tab['g']])}" + " })" for p in outs]
-        L(g, reals(X + extra), hyp, ens, ["C01", "C03", "C07", "C04"] if nested else ["C01", "C03", "C07"], f"{g}: result jet = lift of the derivative table of {g} at x.re")
+        # the real-part clause of this lemma is also C06's "the real part equals the same operation on plain floats"
+        L(g, reals(X + extra), hyp, ens, ["C01", "C03", "C07", "C04", "C06"] if nested else ["C01", "C03", "C07", "C06"], f"{g}: result jet = lift of the derivative table of {g} at x.re (real part = the plain function of the real part)")
     ls = out + gen_type_lemmas2(meta)
     if nested:
         # exponent / small-argument case splits of the inner level are not replicated for the nested units
